@@ -817,3 +817,27 @@ _c = K("RecurrenceNetwork.set_fixed_threshold", "timeseries/recurrence_network.p
        checks=("divzero",))
 _c.region = "body"
 _c.required_asserts = []
+
+# C05 INV-Network: the derived summary attributes written by the adjacency setter are the stated functions of the
+# non-zero coordinates (edges = nz_coords(adjacency): one row per non-zero entry - assumed contract of the helper)
+_c = K("Network.adjacency.setter", "core/network.py", lang="py", func="Network.adjacency#setter", props=("C05",), py_mode=True,
+       inputs={"M": "int", "N": "int", "edges": "arr:int64:2", "self.directed": "bool"},
+       requires=["N>=0", "M>=0"],
+       ensures=["self.N==N and M==N",
+                "self.n_links==ite(self.directed!=0, shape(edges,0), shape(edges,0)//2)",
+                "self.link_density==ite(N>1, real(shape(edges,0))/N/(N-1), 0)"],
+       checks=("divzero",))
+_c.region = "body"
+
+# C09 QUANTILE-DENSITY (index arithmetic): for every requested density in [0,1] the selected order statistic exists,
+# and at most link_density * L entries lie strictly above an ascending array's element at that index (M2 order-statistic
+# lemma on paper: in an ascending array at most len-1-k entries exceed entry k)
+_c = K("ClimateNetwork.threshold_from_link_density", "climate/climate_network.py", lang="py",
+       func="ClimateNetwork.threshold_from_link_density", props=("C09",), py_mode=True,
+       inputs={"flat_corr": "arr:float64:1", "link_density": "float"},
+       requires=["0<=link_density and link_density<=1", "shape(flat_corr,0)>=1"],
+       asserts={"del flat_corr": [
+           "real(shape(flat_corr,0)-1-ite(int((1-link_density)*shape(flat_corr,0))<shape(flat_corr,0)-1, "
+           "int((1-link_density)*shape(flat_corr,0)), shape(flat_corr,0)-1)) <= link_density*shape(flat_corr,0)"]},
+       checks=("bounds",))
+_c.region = "body"
